@@ -78,7 +78,7 @@ Lemma create_context_binds c s txh svc provs cons inok capd capa timeout rep fre
   create_context c s txh svc provs cons inok capd capa timeout rep freq total st thr md = Some (s', id) -> binds s' = binds s.
 Proof. unfold create_context. intros H. repeat dmn H; inversion H; subst; reflexivity. Qed.
 
-Lemma PInv_exec_msg c s txh m s' : exec_msg c s txh m = Okk s' -> PInv s -> PInv s'.
+Lemma PInv_exec_msg_plain c s txh m s' : exec_msg_plain c s txh m = Okk s' -> PInv s -> PInv s'.
 Proof.
   intros H Hp. destruct m; simpl in H.
   - unfold define in H. repeat dmn H. inversion H; subst. exact Hp.
@@ -121,6 +121,32 @@ Qed.
 
 Lemma PInv_same s s' : binds s' = binds s -> PInv s -> PInv s'.
 Proof. intros B Hp. unfold PInv. rewrite B. exact Hp. Qed.
+
+Lemma PInv_call_module c s txh svc provs cons inok capd capa timeout rep freq total s' :
+  call_module c s txh svc provs cons inok capd capa timeout rep freq total = Okk s' -> PInv s -> PInv s'.
+Proof.
+  unfold call_module. intros H Hp.
+  destruct (negb _); [discriminate|].
+  destruct (create_context c s txh svc [c_mprov c] cons inok capd capa 1 false 0 0 0 0 false) as [[s1 id]|] eqn:E1; [|discriminate].
+  pose proof (PInv_same _ _ (create_context_binds _ _ _ _ _ _ _ _ _ _ _ _ _ _ _ _ _ _ E1) Hp) as P1.
+  destruct (get id (ctxs s1)) as [x|]; [|discriminate].
+  destruct (filter_provs s1 x (x_provs x)) as [[|p0 ps]|]; try discriminate.
+  destruct (debit_all (led s1) (x_cons x) (total_fees s1 x [c_mprov c])) as [l|]; [|discriminate].
+  set (s2 := initiate_ms (with_led s1 (credit_all l REQ (total_fees s1 x [c_mprov c]))) id x [c_mprov c]) in *.
+  assert (P2 : PInv s2) by (eapply PInv_same; [|exact P1]; reflexivity).
+  destruct (respond c s2 (id, x_batch x + 1, height s, 0) (c_mprov c) 1) as [s3| |] eqn:Er; try discriminate.
+  pose proof (PInv_exec_msg_plain c s2 0 (MRespond (id, x_batch x + 1, height s, 0) (c_mprov c) 1) s3 Er P2) as P3.
+  inversion H; subst s'. eapply PInv_same; [|exact P3]. reflexivity.
+Qed.
+
+Lemma PInv_exec_msg c s txh m s' : exec_msg c s txh m = Okk s' -> PInv s -> PInv s'.
+Proof.
+  intros H Hinv. destruct m; cbn [exec_msg] in H; try (eapply PInv_exec_msg_plain; eassumption).
+  - destruct (module_served c svc); [discriminate|].
+    eapply (PInv_exec_msg_plain c s txh (MBind svc prov depd depa pr qos optok owner)); eassumption.
+  - destruct (module_served c svc); [eapply PInv_call_module; eassumption|].
+    eapply (PInv_exec_msg_plain c s txh (MCall svc provs cons inok capd capa timeout rep freq total)); eassumption.
+Qed.
 
 Lemma PInv_expire c x s e : PInv s -> PInv (expire_request c x s e).
 Proof.
@@ -167,6 +193,7 @@ Proof.
   - unfold k_pause in E. repeat dmn E; inversion E; subst; exact Hp.
   - unfold k_start in E. repeat dmn E; inversion E; subst; exact Hp.
   - unfold k_kill in E. repeat dmn E; inversion E; subst; exact Hp.
+  - eapply (PInv_exec_msg_plain c s 0 (MBind svc prov depd depa pr qos true owner)); eassumption.
 Qed.
 
 Lemma PInv_reachable c steps h0 t0 l0 : PInv (run c (init h0 t0 l0) steps).
@@ -265,11 +292,15 @@ Proof.
 Qed.
 
 Lemma EscInv_msg c s st :
+  c_msvc c < 0 ->
   (match st with EndBlock _ => False | _ => True end) -> DepInv s -> EscInv s -> EscInv (apply c s st).
 Proof.
-  intros Hst Hinv He. unfold apply. destruct (exec_step c s st) as [s'| |] eqn:E; try exact He.
-  destruct st; simpl in E; try contradiction.
-  - destruct m; try (pose proof (exec_msg_esc _ _ _ _ _ E Hinv) as Hs; simpl in Hs; eapply EscInv_same; [exact Hs|exact He]).
+  intros Hm Hst Hinv He. unfold apply. destruct (exec_step c s st) as [s'| |] eqn:E; try exact He.
+  destruct st; cbn [exec_step] in E; try contradiction.
+  8: { change (exec_msg_plain c s 0 (MBind svc prov depd depa pr qos true owner) = Okk s') in E.
+       pose proof (exec_msg_esc _ _ _ _ _ E Hinv) as Hs. simpl in Hs. eapply EscInv_same; [exact Hs|exact He]. }
+  all: simpl in E.
+  - rewrite (exec_msg_plain_eq _ _ _ _ Hm) in E. destruct m; try (pose proof (exec_msg_esc _ _ _ _ _ E Hinv) as Hs; simpl in Hs; eapply EscInv_same; [exact Hs|exact He]).
     + simpl in E. eapply EscInv_respond; eassumption.
     + simpl in E. eapply EscInv_withdraw; eassumption.
   - inversion E; subst. eapply EscInv_same; [|exact He]. repeat split.
@@ -490,12 +521,12 @@ Proof.
   eapply (EscInv_same s2); [repeat split|exact E2].
 Qed.
 
-Lemma GInv_apply c s st : fresh_ctx s st -> GInv s -> GInv (apply c s st).
+Lemma GInv_apply c s st : c_msvc c < 0 -> fresh_ctx s st -> GInv s -> GInv (apply c s st).
 Proof.
-  intros Hf (Hq & Hb & Hd & Hp & He).
-  destruct (SInv_apply c s st Hf (conj Hq Hb)) as (Hq' & Hb').
+  intros Hm Hf (Hq & Hb & Hd & Hp & He).
+  destruct (SInv_apply c s st Hm Hf (conj Hq Hb)) as (Hq' & Hb').
   split; [exact Hq'|]. split; [exact Hb'|]. split; [apply DepInv_apply; exact Hd|]. split; [apply PInv_apply; exact Hp|].
-  destruct st as [txh m|dt|d r|f t d a| | | | ]; try (apply EscInv_msg; [exact I|exact Hd|exact He]).
+  destruct st as [txh m|dt|d r|f t d a| | | | | ]; try (apply EscInv_msg; [exact Hm|exact I|exact Hd|exact He]).
   unfold apply. simpl. destruct (0 <=? dt); [|exact He]. apply GInv_end_block. exact (conj Hq (conj Hb (conj Hd (conj Hp He)))).
 Qed.
 
@@ -509,12 +540,13 @@ Qed.
 
 Theorem request_escrow_eq_liabilities_lemma :
   forall c steps h0 t0 l0,
+    c_msvc c < 0 ->
     (forall d, bal l0 REQ d = 0) -> bal l0 DEP BASE = 0 ->
     fresh_history c (init h0 t0 l0) steps ->
     let s := run c (init h0 t0 l0) steps in
     forall d, bal (led s) REQ d = liab d s.
 Proof.
-  intros c steps h0 t0 l0 Hr Hd Hf s.
+  intros c steps h0 t0 l0 Hm Hr Hd Hf s.
   assert (G : GInv s) by (subst s; apply (run_inv_fresh GInv c); [intros; apply GInv_apply; assumption|exact Hf|apply GInv_init; assumption]).
   destruct G as (_ & _ & _ & _ & E). exact (e_eq _ E).
 Qed.
@@ -534,7 +566,7 @@ Fixpoint fresh_historyb (c : config) (s : state) (steps : list step) : bool :=
 Lemma fresh_historyb_ok c : forall steps s, fresh_historyb c s steps = true -> fresh_history c s steps.
 Proof.
   induction steps as [|st r IH]; simpl; intros s H; [exact I|]. apply andb_true_iff in H. destruct H as (H1 & H2).
-  split; [|apply IH; exact H2]. destruct st as [txh m| | | |txh svc provs cons capa timeout rep freq total st0 thr| | |]; try exact I.
+  split; [|apply IH; exact H2]. destruct st as [txh m| | | |txh svc provs cons capa timeout rep freq total st0 thr| | | |]; try exact I.
   - destruct m; try exact I. simpl in *. destruct (ctx_at s (txh, iidx s)); [discriminate|reflexivity].
   - simpl in *. destruct (ctx_at s (txh, iidx s)); [discriminate|reflexivity].
 Qed.
